@@ -628,3 +628,30 @@ pub fn stream_write<const MODE: u8>() {
     }
     post_read::<MODE>(&c);
 }
+
+/// slice-to-slice copy from an element array of multi-byte elements: `min(elements * size, destination length)` BYTES move
+pub fn array_copy_to_volatile_slice<const MODE: u8, T: ByteValued>() {
+    let mut c = ctx();
+    let mut src = Aligned::<N>::any();
+    let src_copy = src.0;
+    let (so, cnt): (usize, usize) = (kani::any(), kani::any());
+    let sz = size_of::<T>();
+    kani::assume(so <= N && cnt <= (N - so) / sz);
+    let (wo, wc) = (c.wo, c.wc);
+    let rec = &c.rec;
+    let root = c.root;
+    let n = core::cmp::min(cnt * sz, wc);
+    on_slice!(MODE, rec, root, &mut c.mem.0[wo..wo + wc], |d| {
+        let s = VolatileSlice::from(&mut src.0[so..]);
+        let r = s.get_array_ref::<T>(0, cnt);
+        match &r {
+            Ok(a) => a.copy_to_volatile_slice(d),
+            Err(_) => assert!(false),
+        }
+        leak(r);
+    });
+    kani::cover!(cnt > 1 && cnt * sz < wc);
+    kani::cover!(cnt * sz > wc && wc > 0);
+    kani::cover!(n > 8);
+    post::<MODE>(&c, 0, n, &|j| src_copy[so + j]);
+}
